@@ -343,9 +343,32 @@ func TestVerifC06(t *testing.T) {
 			if len(sample) < 8 {
 				sample = append(sample, desc)
 			}
+			// the three upper-level entries on the way to the faulting page: whatever the handler does with the
+			// leaf, these cover up to 512^3 other pages and are not its business
+			var pathPtr [3]*uint64
+			var pathVal [3]uint64
+			{
+				table := m.cr3
+				ix := vmIndices(p.va)
+				for l := 0; l < 3; l++ {
+					e := vmEntryAt(table, ix[l])
+					pathPtr[l], pathVal[l] = e, *e
+					if *e&vmPresent == 0 || !m.inArena(uintptr(*e&vmPhysMask)) {
+						break
+					}
+					table = uintptr(*e & vmPhysMask)
+				}
+			}
 			faultVA = p.va
 			pv, _ := vlib.Protect(func() { pfHandler(&regs) })
 			faultVA = 0
+			for l := 0; l < 3; l++ {
+				if pathPtr[l] != nil && *pathPtr[l] != pathVal[l] {
+					c.Violation("upper-level-entry-changed", map[string]interface{}{"fault": desc, "what": fmt.Sprintf("the level-%d table entry on the way to the faulting page changed from %#x to %#x: it covers other pages' mappings", l+1, pathVal[l], *pathPtr[l])})
+					return
+				}
+			}
+			run.Count("upper_level_path_entries_compared", 3)
 			m.failAt = 0
 			failTempMap = false
 			if upper != nil {
